@@ -12,6 +12,8 @@ var verifHTMLDocs = []string{
 	"<!doctype html>\n<html><head><title> T </title></head><body class=\"a\"> <p> x  y <b> z </b></p> <!-- c --> <a href=\"http://x/\" id='i'>l</a><br/></body></html>",
 	"<p>a<p>b",
 	"<script>var a = 1;</script><style>a{}</style>",
+	"<p>a<plaintext>x  <b> y",
+	"<textarea> a </textarea><pre> b </pre><iframe>c</iframe><title>t</title>",
 	"",
 }
 
@@ -32,4 +34,19 @@ func VerifHTMLIOFaultTruncated(n int) {
 	verifIOFaultTruncated([]byte(verifHTMLTruncDoc), func(w io.Writer, r io.Reader) error {
 		return (&Minifier{}).Minify(m, w, r, nil)
 	})
+}
+
+var verifHTMLTruncAttrDoc = "<p>text</p><img src=x alt=\"a b\" title='c'><a href=\"http://x/\" class=\"\" id=i data-x=\"&amp;\">l</a><input type=\"text\" value=\"\" checked><!-- c --><![CDATA[d]]>"
+
+// VerifHTMLTruncated (C10): html.Minify on every prefix of two documents (all token kinds; attributes in every quoting
+// style, cut after the name, the =, the opening quote, inside the value): no panic, terminates.
+func VerifHTMLTruncated(n int) {
+	doc := []string{verifHTMLTruncDoc, verifHTMLTruncAttrDoc}[vChoice("doc", 2)]
+	cut := vConcrete(vInt("cut", 0, len(doc)))
+	in := []byte(doc[:cut])
+	w := &vWriter{}
+	err := (&Minifier{}).Minify(minify.New(), w, &vReader{b: in}, nil)
+	vOutput("out", w.buf)
+	vOutputBool("err", err != nil)
+	vReach("end")
 }
